@@ -28,7 +28,7 @@ Sbf(s, delta) ==
     LET gap == (SP(s) - SQ(s)) + (SD(s) - SQ(s))
         x   == delta - gap
     IN IF x <= 0 THEN 0
-       ELSE (x \div SP(s)) * SQ(s) + Min(SQ(s), x % SP(s))
+       ELSE (x \div SP(s)) * SQ(s) + MinOf(SQ(s), x % SP(s))
 
 \* The inverse, by definition: the least t with Sbf(s, t) >= d.  Since
 \* Sbf(s, P + D - 2Q + ceil(d/Q) * P) >= d the scan is bounded.
